@@ -70,6 +70,8 @@ def run_parser(parser, text):
         return ('ok', out)
     except configparser.Error as e:
         return ('err', ERRS.get(type(e).__name__, 'other:' + type(e).__name__))
+    except Exception as e:
+        return ('err', 'other:' + type(e).__name__)
 
 
 def ref_texts(doc):
